@@ -53,7 +53,7 @@ def tables_tie(ctx, facts):
 
 
 def check_C18(ctx):
-    facts = prepare(ctx, need_ocaml=False)
+    facts = prepare(ctx)
     rep = tables_tie(ctx, facts)
     ctx.cov["exhaustive"] = True
     ctx.assumptions += [
@@ -69,6 +69,20 @@ def check_C18(ctx):
             ctx.cov["tag_value_probes"] = hrep.get("distribution", {}).get("tag-values-ignored", 0) + hrep.get("distribution", {}).get("transplant:wildcard", 0)
             for v in [x for x in hrep["violations"] if x.get("kind") == "user-type-tag" or (x.get("kind") == "transplant" and "wildcard" in x.get("what", ""))][:4]:
                 ctx.violation("struct-tag", v)
+    # a structure's / field's kmip:"NAME" annotation resolves to the tag of that name for user-defined types too, whatever the
+    # field that carries it looks like (exported or not): descriptors of random reflect.StructOf types, real (hook) vs Fields.v
+    if facts.get("harness_ok") and facts.get("ocaml_ok"):
+        urep, urows = run_suite_with_model(ctx, facts, "codec", ["-n", "100" if ctx.tier == "quick" else "1000"])
+        if urep is not None:
+            drows = [r for r in urows if r[0].endswith("u-desc")]
+            ctx.cov["user_type_descriptors_compared"] = len(drows)
+            bad = 0
+            for g, cmd, impl, model in drows:
+                if impl != model:
+                    bad += 1
+                    if bad <= 3:
+                        ctx.violation("struct-tag", {"what": "the descriptor the library derives from a user-defined structure type (tag numbers the annotations resolve to) differs from the model of fields.go",
+                                                     "case": short(cmd, 3000), "implementation": short(impl, 1500), "model": short(model, 1500)})
     if rep and rep["disagreements"]:
         # the translator and the compiled package disagree: the theorems speak about something else than the code
         d = [x for x in rep["disagreements"] if x["kind"] in ("constant", "tagMap")]
